@@ -48,6 +48,7 @@ import "github.com/biogo/biogo/feat"
 //@   loop 1 invariant forall k int :: 0 <= k && k < idx ==> introns[k].Transcript == s[k+1].Transcript
 //@   loop 1 invariant fresh(introns) || arr(introns) == 0
 //@   loop 1 decreases len(s) - 1 - idx
+//@   loop 1 writes fresh
 
 //@ func buildExonsFor
 //@   property C20
